@@ -289,7 +289,7 @@ func (s *subsSys) Nontrivial() bool {
 func c19Keys() []string {
 	k := []string{"a", "a/b", "a/b/c", "a/c", "b"}
 	if vk.Thorough() {
-		k = append(k, "a/b/c/d", "b/a", "a/", "/a")
+		k = append(k, "b/a", "a/", "/a")
 	}
 	return k
 }
